@@ -411,11 +411,12 @@ def run_check(prop, modname, tier, seed):
         print('VIOLATION property=%s replay=%s' % (prop, p))
         print('  check=%s sig=%s info=%s' % (fl['check'], fl['sig'], json.dumps(fl.get('info'), default=str)[:500]))
         code = 1
-    if code == 0 and unreproduced:
+    if unreproduced:
         for k, p, fl in unreproduced[:5]:
             print('INCONCLUSIVE: counterexample %s did not reproduce on the real OS (replay=%s): %s'
                   % (list(k), p, json.dumps(fl, default=str)[:600]))
-        code = 3
+        if code == 0:
+            code = 3
     incon = {k: v for k, v in total.notes.items() if k.startswith('inconclusive-path')}
     if incon:
         for k, v in sorted(incon.items())[:5]:
